@@ -1,6 +1,7 @@
 import PkLA.Rff
 import PkLA.RffGaussian
 import PkLA.RffLaplace
+import PkLA.RffMore
 import Pk.Streams
 import Pk.KindLaws
 import Mathlib.Algebra.BigOperators.Group.Finset.Basic
@@ -11,10 +12,16 @@ Proved: the exact identities of the two feature-generation methods (`weight_only
 feature vectors is the average of `cos(⟨x−y, w_j⟩)` and every feature vector has unit norm; `weight_offset`:
 averaging over a uniform offset removes it), the layout of `KernelApproxLiftingFn`, and the stream model of the
 seed plumbing (integer seeds make weights and offsets read the same stream positions — finding F-rff).
-Also proved (Mathlib's Gaussian characteristic function): for independent standard normal weights the mean of one
-feature product is exactly the Gaussian kernel `exp(−shape·‖x−y‖²)` (`C17_gaussian_kernel_mean`).
-NOT provable here: that scipy's samplers have the named distributions, the Fourier pairs of the Laplacian /
-Cauchy kernels, and the `O(1/√D)` concentration.  Property theorems only. -/
+Also proved: the three named kernels are the means of a feature product for i.i.d. weights of the distribution the
+lookup table names, in any dimension - standard normal ↦ Gaussian kernel `exp(−shape·‖x−y‖²)`
+(`C17_gaussian_kernel_mean`, Mathlib's Gaussian characteristic function), Laplace ↦ product Cauchy kernel
+`∏ 1/(1+2·shape·(x_i−y_i)²)` (`C17_cauchy_kernel_mean`), Cauchy ↦ Laplacian kernel `exp(−√(2·shape)·‖x−y‖₁)`
+(`C17_laplacian_kernel_mean`, by Fourier inversion of `e^{−|x|}`); unbiasedness of the `weight_offset` features over
+an independent uniform offset (`C17_offset_unbiased`); and the concentration clause: for `D` independent draws the
+estimate deviates from the kernel by `ε` with probability at most `2·exp(−D ε²/2)` (`weight_only`, Hoeffding,
+`C17_concentration_*`) resp. `4/(D ε²)` (`weight_offset`, Chebyshev, `C17_offset_concentration`) - i.e. `O(1/√D)`.
+NOT provable here: that scipy's samplers have the named distributions and that successive draws are independent
+(the integer-seed defect F-rff is exactly a failure of that).  Property theorems only. -/
 namespace Pk.C17
 open Real Finset PkLA
 
@@ -90,10 +97,80 @@ theorem C17_gaussian_kernel_mean {ι : Type} [Fintype ι] (shape : ℝ) (hs : 0 
 
 /-- **the `'cauchy'` features, one coordinate**: for a weight with the Laplace density `½e^{−|w|}`
 (`scipy.stats.laplace`, scale 1) the mean of `cos(√(2·shape)·w·(x − y))` is the Cauchy kernel
-`1 / (1 + 2·shape·(x − y)²)`.  (Several coordinates: the product of these factors - Fubini, not proved here.) -/
+`1 / (1 + 2·shape·(x − y)²)`.  (Several coordinates: `C17_cauchy_kernel_mean`.) -/
 theorem C17_cauchy_kernel_mean_1d (shape : ℝ) (hs : 0 ≤ shape) (x y : ℝ) :
     ∫ w : ℝ, Real.cos (Real.sqrt (2 * shape) * (x - y) * w) * (1 / 2 * Real.exp (-|w|))
       = 1 / (1 + 2 * shape * (x - y) ^ 2) := by
   rw [rff_laplace_mean, mul_pow, Real.sq_sqrt (by positivity)]
+
+/-- **the `'cauchy'` features in any dimension**: i.i.d. weights with the Laplace density `½e^{−|w|}`
+(`scipy.stats.laplace`) give the product Cauchy kernel -/
+theorem C17_cauchy_kernel_mean {ι : Type} [Fintype ι] (shape : ℝ) (hs : 0 ≤ shape) (x y : ι → ℝ) :
+    ∫ w : ι → ℝ, Real.cos (Real.sqrt (2 * shape) * ∑ i, w i * (x i - y i))
+        ∂(MeasureTheory.Measure.pi fun _ : ι => μL)
+      = ∏ i, 1 / (1 + 2 * shape * (x i - y i) ^ 2) :=
+  rff_laplace_mean_iid_scaled shape hs x y
+
+/-- **the `'laplacian'` features in any dimension**: i.i.d. weights with the Cauchy density `1/(π(1+w²))`
+(`scipy.stats.cauchy`) give the Laplacian kernel of the 1-norm, with the documented factor `√(2·shape)` -/
+theorem C17_laplacian_kernel_mean {ι : Type} [Fintype ι] (shape : ℝ) (x y : ι → ℝ) :
+    ∫ w : ι → ℝ, Real.cos (Real.sqrt (2 * shape) * ∑ i, w i * (x i - y i))
+        ∂(MeasureTheory.Measure.pi fun _ : ι => μC)
+      = Real.exp (-(Real.sqrt (2 * shape) * ∑ i, |x i - y i|)) :=
+  rff_cauchy_mean_iid_scaled shape x y
+
+/-- **`weight_offset` is unbiased**: for a weight `w ~ ν` (any distribution) and an INDEPENDENT offset uniform on
+`(0, 2π]`, the mean of the feature product `√2cos(p(w)+b)·√2cos(q(w)+b)` is the mean of `cos(p(w) − q(w))` -
+the quantity the three kernel theorems evaluate -/
+theorem C17_offset_unbiased {E : Type} [MeasurableSpace E] (ν : MeasureTheory.Measure E)
+    [MeasureTheory.IsProbabilityMeasure ν] (p q : E → ℝ) (hp : Measurable p) (hq : Measurable q) :
+    ∫ z : E × ℝ, 2 * Real.cos (p z.1 + z.2) * Real.cos (q z.1 + z.2) ∂(ν.prod μU)
+      = ∫ w, Real.cos (p w - q w) ∂ν :=
+  rff_offset_mean ν p q hp hq
+
+/-- **concentration, generic**: the mean of `D` independent draws of a feature product bounded by `c` deviates from
+its expectation `κ` by at least `ε` with probability at most `2·exp(−D ε² / (2c²))` - the `O(1/√D)` clause -/
+theorem C17_concentration {E : Type} [MeasurableSpace E] (ν : MeasureTheory.Measure E)
+    [MeasureTheory.IsProbabilityMeasure ν] (D : ℕ) [NeZero D] (g : E → ℝ) (hg : Measurable g) (c κ : ℝ) (hc : 0 < c)
+    (hb : ∀ w, |g w| ≤ c) (hmean : ∫ w, g w ∂ν = κ) {ε : ℝ} (hε : 0 ≤ ε) :
+    (MeasureTheory.Measure.pi fun _ : Fin D => ν).real {W | ε ≤ |(1 / (D : ℝ)) * ∑ j, g (W j) - κ|}
+      ≤ 2 * Real.exp (-((D : ℝ) * ε ^ 2) / (2 * c ^ 2)) :=
+  rff_iid_hoeffding ν D g hg c κ hc hb hmean hε
+
+/-- … end to end for the three named kernels (`weight_only`: a `D × n` matrix of i.i.d. weights) -/
+theorem C17_concentration_gaussian {ι : Type} [Fintype ι] (D : ℕ) [NeZero D] (shape : ℝ) (hs : 0 ≤ shape)
+    (x y : ι → ℝ) {ε : ℝ} (hε : 0 ≤ ε) :
+    (MeasureTheory.Measure.pi fun _ : Fin D =>
+        MeasureTheory.Measure.pi fun _ : ι => ProbabilityTheory.gaussianReal 0 1).real
+      {W | ε ≤ |(1 / (D : ℝ)) * ∑ j, Real.cos (Real.sqrt (2 * shape) * ∑ i, W j i * (x i - y i))
+                - Real.exp (-(shape * ∑ i, (x i - y i) ^ 2))|}
+      ≤ 2 * Real.exp (-((D : ℝ) * ε ^ 2) / 2) :=
+  rff_gaussian_kernel_hoeffding D shape hs x y hε
+
+theorem C17_concentration_cauchy {ι : Type} [Fintype ι] (D : ℕ) [NeZero D] (shape : ℝ) (hs : 0 ≤ shape)
+    (x y : ι → ℝ) {ε : ℝ} (hε : 0 ≤ ε) :
+    (MeasureTheory.Measure.pi fun _ : Fin D => MeasureTheory.Measure.pi fun _ : ι => μL).real
+      {W | ε ≤ |(1 / (D : ℝ)) * ∑ j, Real.cos (Real.sqrt (2 * shape) * ∑ i, W j i * (x i - y i))
+                - ∏ i, 1 / (1 + 2 * shape * (x i - y i) ^ 2)|}
+      ≤ 2 * Real.exp (-((D : ℝ) * ε ^ 2) / 2) :=
+  rff_cauchy_kernel_hoeffding D shape hs x y hε
+
+theorem C17_concentration_laplacian {ι : Type} [Fintype ι] (D : ℕ) [NeZero D] (shape : ℝ)
+    (x y : ι → ℝ) {ε : ℝ} (hε : 0 ≤ ε) :
+    (MeasureTheory.Measure.pi fun _ : Fin D => MeasureTheory.Measure.pi fun _ : ι => μC).real
+      {W | ε ≤ |(1 / (D : ℝ)) * ∑ j, Real.cos (Real.sqrt (2 * shape) * ∑ i, W j i * (x i - y i))
+                - Real.exp (-(Real.sqrt (2 * shape) * ∑ i, |x i - y i|))|}
+      ≤ 2 * Real.exp (-((D : ℝ) * ε ^ 2) / 2) :=
+  rff_laplacian_kernel_hoeffding D shape x y hε
+
+/-- `weight_offset` (independent weight / offset pairs, any weight distribution with kernel mean `κ`) -/
+theorem C17_offset_concentration {ι : Type} [Fintype ι] (ν : MeasureTheory.Measure (ι → ℝ))
+    [MeasureTheory.IsProbabilityMeasure ν] (D : ℕ) [NeZero D] (s : ℝ) (x y : ι → ℝ) (κ : ℝ)
+    (hκ : ∫ w : ι → ℝ, Real.cos (s * ∑ i, w i * (x i - y i)) ∂ν = κ) {ε : ℝ} (hε : 0 < ε) :
+    (MeasureTheory.Measure.pi fun _ : Fin D => ν.prod μU)
+      {Z | ε ≤ |(1 / (D : ℝ)) * ∑ j, 2 * Real.cos (s * ∑ i, (Z j).1 i * x i + (Z j).2)
+                    * Real.cos (s * ∑ i, (Z j).1 i * y i + (Z j).2) - κ|}
+      ≤ ENNReal.ofReal (4 / ((D : ℝ) * ε ^ 2)) :=
+  rff_offset_concentration ν D s x y κ hκ hε
 
 end Pk.C17
